@@ -2975,9 +2975,9 @@ class ChannelManager:
         # Connect
         try:
             await channel.connect()
-        except Exception:
+        except BaseException:
             logger.exception('connection failed')
-            del connection_channels[source_cid]
+            connection_channels.pop(source_cid, None)
             raise
 
         # Remember the channel by source CID and destination CID
